@@ -36,7 +36,7 @@ ASSUMPTIONS = [
 ]
 
 TOP = scen.TOP
-TARGETS = ['', 'd', 'd/e', 'g']
+TARGETS = ['', 'd', 'd/e', 'g', 'dx']
 
 OPTS_QUICK = [
     dict(hashes=('SHA1',), sort=False, force=False, wm=None, fmt=None, profile='default'),
@@ -98,6 +98,8 @@ def apply_edit_disk(root, edit):
             os.unlink(j('d/e/f2'))
             return True
         return False
+    if edit == 'alter_top':
+        return rewrite('f0', lambda d: d + b'!!')
     if edit == 'alter_two':
         a = rewrite('f0', lambda d: d + b'!')
         b = rewrite('d/e/f2', lambda d: d.swapcase() + b'.')
@@ -159,6 +161,24 @@ def judge_disk(root, upath, o, case):
     v = refverify.expected_verify(root, TOP, upath)
     if v.kind == 'dontcare':
         return [], v.dc[0]
+    if upath and v.chain_broken:
+        # sub-directory update: a Manifest ABOVE the updated directory that the update did not rewrite and
+        # whose MANIFEST entry in its parent was stale already is a pre-existing inconsistency outside the
+        # updated directory (the walk never sees that file) - the statement is about "that directory"
+        prior = case['tree']['files']
+        pre_existing = True
+        for mp in v.chain_broken:
+            md = os.path.dirname(mp)
+            above = md != upath and refverify.comp_prefix(upath, md)
+            try:
+                with open(os.path.join(root, mp), 'rb') as f:
+                    same = prior.get(mp) == f.read()
+            except OSError:
+                same = False
+            if not (above and same):
+                pre_existing = False
+        if pre_existing:
+            return [], 'stale MANIFEST entry for an unrewritten Manifest above the updated sub-directory'
     bad = []
     want = set(o['hashes'] if o['hashes'] is not None else ('BLAKE2B', 'SHA512'))
     lacking = {p: sorted(want - set(cks)) for p, (tags, _sz, cks) in v.entries.items()
